@@ -7,6 +7,7 @@ import (
 	"strings"
 	"time"
 
+	badger "github.com/dgraph-io/badger/v4"
 	clover "github.com/ostafen/clover/v2"
 	"github.com/ostafen/clover/v2/document"
 	"github.com/ostafen/clover/v2/index"
@@ -54,6 +55,8 @@ func Classify(err error) string {
 	}
 	return EOther
 }
+
+func isBadger(backend string) bool { return backendClass(backend) == "badger" }
 
 func accepts(want []string, got string) bool {
 	for _, w := range want {
@@ -197,6 +200,16 @@ func (s *S) expect(name string, want []string, got string, err error) bool {
 		return false
 	}
 	s.c.Eval(1)
+	if !accepts(want, got) && errors.Is(err, badger.ErrTxnTooBig) && isBadger(s.h.Backend) {
+		// a capacity limit of the store (about 10 MB or 100 000 entries per transaction with badger's default
+		// options), not a statement about the operation: the history ends here, neither held nor violated.
+		// (What a refused oversized transaction may leave behind is decided by the oversized-operation engines.)
+		s.c.Log("%s -> refused by the store: %v (transaction size limit; case inconclusive)", name, err)
+		s.c.Inconclusive("store_transaction_size_limit")
+		s.c.CapacityHit = true
+		s.failed = true
+		return false
+	}
 	if !accepts(want, got) {
 		s.c.Log("%s -> %s (%v)", name, got, err)
 		s.viol("outcome:"+opName(name)+":want-"+strings.Join(want, "|")+":got-"+got, "%s returned %s (%v), acceptable: %v", name, got, err, want)
